@@ -318,7 +318,15 @@ struct C16 : vf::Engine {
                         // failed realization: as every client of the library does, change a state variable before going on
                         if (s.getSystemStage() >= Stage::Position) ++probeThrowAdvanced;
                         res.count("fault_realize_throw"); S.tc.calls = 0; ++nextThrow; S.tc.throwAt = nextThrow < throwAts.size() ? throwAts[nextThrow] : -1; S.tc.fired = 0;
-                        Vector u = s.getU(); if (u.size()) { u[0] += 0.125; s.updU() = u; } modified("u (after a failed realization)");
+                        // ... which variable is up to the client: a speed, the time, a coordinate or a force parameter
+                        switch ((opn * 31 + (int)nextThrow * 7) % 4) {
+                        case 0: { s.setTime(s.getTime() + 0.0625); modified("time (after a failed realization)"); break; }
+                        case 1: { Vector q = s.getQ(); if (q.size()) { q[q.size() - 1] += 0.0625; s.updQ() = q; } modified("q (after a failed realization)"); break; }
+                        case 2: { bool did = false; for (auto& e : S.elems) if (e.h) { e.h->setParam(s, e.h->getParam(s) * 1.5 + 0.25); did = true; break; }
+                                  if (did) { modified("parameter (after a failed realization)"); break; } }
+                        // fall through
+                        default: { Vector u = s.getU(); if (u.size()) { u[0] += 0.125; s.updU() = u; } modified("u (after a failed realization)"); }
+                        }
                     }
                 }
                 else if (op.kind == "query") {
